@@ -11,7 +11,7 @@ CHECKS = {
                   "independent ISO 13616 reference model",
         text="Differential against a reference model that shares no code with schwifty: complete single-replacement "
              "neighbourhood over a 258+ character alphabet, all lengths 0..40, all 100 check-digit pairs, all two-character "
-             "prefixes for valid IBANs of every bundled country, plus Hypothesis-generated Unicode and near-valid text. "
+             "prefixes for valid IBANs of every bundled country, extreme whitespace (every gap, up to 70,000 padding characters), a token dictionary harvested from the tree, str-subclass / library-object arguments, self-similar IBANs, plus Hypothesis-generated Unicode and near-valid text; atheris campaign in the thorough tier. "
              "Exploration, not proof: exhaustive only inside the named neighbourhoods of sampled bases.",
         note="Trusted: the reference model in vlib/oracles/core.py (self-tested against the repository's own literals); "
              "normalisation read as str.isspace removal + str.upper.",
@@ -35,7 +35,8 @@ CHECKS = {
                   "against an own ISO 9362 reference",
         text="Differential against an own ISO 9362 matcher with an embedded ISO 3166-1 list, both compliance modes: every "
              "position x every alphabet character of 8/11-character bases, every length 0..14, all 676 country codes, every "
-             "registry BIC, Hypothesis near-valid and arbitrary Unicode text.",
+             "registry BIC, extreme whitespace, token dictionary, argument forms, a copy of the package whose registry lists malformed BICs "
+             "(acceptance is a function of the text alone), Hypothesis near-valid and arbitrary Unicode text; atheris in thorough.",
         note="Trusted: embedded ISO 3166-1 list (249 codes) and the reference matcher in vlib/oracles/bic.py.",
         design="7/C04"),
     "C05": dict(
@@ -53,7 +54,9 @@ CHECKS = {
         text="For each of the 22 listed countries the library's verdict with national validation is compared with an "
              "independent three-valued implementation of the published algorithm on BBANs whose accept side is populated by "
              "reference-solved check digits; national field swept exhaustively for selected bases; monotonicity and "
-             "no-effect on unlisted countries on valid and mutated texts; BBAN-level check returns True / raises.",
+             "no-effect on unlisted countries on valid and mutated texts; edge-directed bases (valid field value 00/01/97/98...); the "
+             "same BBAN text under sibling countries in both orders; BBAN-level check returns True / raises on BBAN objects of every "
+             "provenance.",
         note="Trusted: O-nat in vlib/oracles/nat.py; Norway accounts starting 00 tolerated.",
         design="7/C06"),
     "C07": dict(
@@ -62,7 +65,8 @@ CHECKS = {
         text="Every implemented method is compared with an independent reference on hundreds of thousands of generated "
              "accounts whose remainders 0/1/10 and documented boundaries are hit by construction; dispatch is checked through "
              "the public IBAN API for every German bank code of the bundled registry, unlisted codes and banks of "
-             "unimplemented methods; banks sharing a method must agree (metamorphic).",
+             "unimplemented methods; banks sharing a method must agree (metamorphic); sibling-country warm-up (same 18 digits as CR/ME/RS/VA "
+             "BBAN) and constructor / validate / from_bban(str|BBAN) must agree.",
         note="Trusted: O-de written from the Bundesbank descriptions (reproduces all 70 literals of the repository's tests); "
              "ambiguous regions (13/63/68/76 sub-accounts, 16/23 remainder 1 with digit 0) are undecided and tolerated.",
         design="7/C07"),
@@ -72,7 +76,8 @@ CHECKS = {
         text="For every country (and unknown/position-less ones) component strings of all width classes and character kinds "
              "are passed to IBAN.generate and BBAN.from_components; the result must be a reference-valid IBAN carrying "
              "norm(value).zfill(width) at the table position (combined bank code split), or a library error - of the class "
-             "specific to an over-long component when one is over-long. Nothing else may escape.",
+             "specific to an over-long component when one is over-long. Nothing else may escape. Includes whitespace-only and upper-case-"
+             "lengthening components and calls after other uses of the country.",
         note="Trusted: reference placement model; success is not demanded where the statement allows an error, success counts "
              "per country are reported.",
         design="7/C08"),
@@ -114,7 +119,8 @@ CHECKS = {
                   "fresh interpreters with varied PYTHONHASHSEED",
         text="Random generation for every country and the no-country form, with Hypothesis-drawn seeds and pin subsets: result "
              "valid for the requested country, pins read back unchanged, only the overflow error raised, registry draws belong "
-             "to a listed bank, identical results for equal seeds in-process and in fresh processes under several hash seeds.",
+             "to a listed bank, identical results for equal seeds in-process, after other uses of the country, and in fresh processes under "
+             "several hash seeds; pins include values taken from listed banks.",
         note="Trusted: O-iban; pins restricted to field-sized conforming values (what the statement defines).",
         design="7/C13"),
     "C16": dict(
@@ -123,7 +129,8 @@ CHECKS = {
         text="Hypothesis builds pairs and lists of IBAN/BIC/BBAN objects and plain strings with frequent equal-compact cross-class "
              "pairs; ==, !=, <, <=, >, >=, hash, dict/set membership, sorted() and set size must equal the operation on the "
              "compact strings. copy, deepcopy and pickle protocols 0-5 of valid and unvalidated IBANs, their BBANs, direct BBANs "
-             "and BICs must give the same class, equality, country and components.",
+             "and BICs must give the same class, equality, country and components; containers of same-text objects of different country; "
+             "objects hashed and pickled by an interpreter with another hash seed.",
         note="Trusted: key function k(object)=norm(source text), k(str)=str.",
         design="7/C16"),
     "C17": dict(
@@ -131,8 +138,8 @@ CHECKS = {
                   "IBAN per bank entry given to the library, generated data corruptions as sensitivity self-test",
         text="Every country entry and every bank entry of the JSON files in the tree is checked against the stated consistency "
              "rules; for every bank entry with a bank code a valid IBAN is built around it and the library must accept it and find "
-             "the bank (and a BIC) again; every registered national algorithm is run on nationally valid input. Exhaustive over "
-             "the data present at check time.",
+             "the bank (and a BIC) again; every registered national algorithm is run on nationally valid input and must find every field "
+             "its published algorithm reads; rows sharing a bank key agree on the method. Exhaustive over the data present at check time.",
         note="Trusted: reference table/registry loaders and structure parser; generated corruptions of the data (each flagged) show "
              "the predicate is not vacuous.",
         design="7/C17"),
@@ -149,9 +156,10 @@ CHECKS = {
         technique="generated call sets x generated/enumerated thread schedules under a deterministic scheduler (sys.settrace baton), "
                   "differential against the same call run alone",
         text="Two or three library calls run in real threads whose interleaving the harness owns at source-line granularity "
-             "(opcode samples in thorough): all 'a steps / b steps' two-preemption schedules of method-level call pairs (stride "
-             "in quick), PRNG- and Hypothesis-drawn preemption lists for method-level and public-API calls. Every outcome must "
-             "equal the outcome of the call run alone; failing schedules must replay deterministically.",
+             "(opcode samples in thorough): all 'a steps / b steps' two-preemption schedules of method-level and national-algorithm call "
+             "pairs (stride in quick), a switch at the first arrival at every distinct source location of one call (both orders) for "
+             "IBAN-level pairs - warm and as the first calls of a fresh process (fork of a pristine zygote per schedule) -, PRNG- and "
+             "Hypothesis-drawn preemption lists. Every outcome must equal the outcome of the call run alone.",
         note="Trusted: the scheduler (vlib/engines/sched.py); C code and third-party modules are atomic steps, so races inside them "
              "are not explored.",
         design="7/C14"),
@@ -160,7 +168,9 @@ CHECKS = {
                   "evaluation of every call, invariants over stored objects and registries",
         text="Generated histories of validation, generation, seeded random generation, lookups, direct algorithm calls (including "
              "failing ones) and operations on stored objects; each step's outcome must equal the outcome of the same call as the "
-             "first call in a fresh process; stored objects and the registries must never change.",
+             "first call in a fresh process; stored objects and the registries must never change. Burst rules route several calls to one "
+             "algorithm object / bank key / BBAN text under sibling countries; failing histories (whole process log) are minimised by "
+             "ddmin in forks of the pristine zygote.",
         note="Trusted: the zygote (fork of an interpreter that imported the library and called nothing) as the meaning of 'fresh "
              "process'; JSON normalisation of outcomes.",
         design="7/C15"),
